@@ -6,7 +6,7 @@
 (*   70..79   element names   html head meta body div span a br img title  *)
 (*   80..95   attribute names style name href src border width height      *)
 (*            http-equiv content class id title xmlns xml:lang lang charset*)
-(*   300..    fixed fragments of text the converters write (opaque: they   *)
+(*   1800000+ fixed fragments of text the converters write (opaque: they   *)
 (*            hold none of < > & " ' )                                     *)
 (*   2000000+ opaque renderings of positions / sizes / styles: HNum(i, f)  *)
 (* and a reader for this markup: tags must balance except the void         *)
@@ -23,26 +23,26 @@ IsMLElem(c) == c \in 70..79 \/ c = ePAGE             \* <page> is the root of Ta
 IsMLAttr(c) == c \in 80..95 \/ c \in {aID, aBBOX, aROTATE}
 Voids == {hMETA, hBR, hIMG}
 \* fixed fragments
-gCONTENTTYPE == 300   \* Content-Type
-gTEXTHTML == 301      \* text/html            (text sink)
-gTEXTHTMLCS == 302    \* text/html; charset=  (binary sink; the codec name follows)
-gFONTFAMILY == 303    \* font-family:SP
-gFONTSIZE == 304      \* ; font-size:
-gPX == 305            \* px
-gPAGE == 306          \* Page SP              (anchor text)
-gPAGES == 307         \* Page: SP             (footer)
-gCOMMA == 308         \* , SP
-gHASHMARK == 309      \* #   (href="#n")
-gOCRPAGE == 310  gOCRBLOCK == 311  gOCRLINE == 312  gOCRXWORD == 313     \* class values
-gHOCRHTMLATTRS == 314 \* xmlns='..' xml:lang='en' lang='en' [charset='..']   (the whole attribute list, fixed)
-gHOCRMETA1 == 315  gHOCRMETA2 == 316  gHOCRMETA3 == 317                  \* the three fixed meta elements' attribute lists
-gHOCRCOMMENT1 == 318  gHOCRCOMMENT2 == 319                               \* the two fixed comments of write_footer
-gFONTQ == 320         \* font:"        (inside style='...')
-gQFONTSIZE == 321     \* "; font-size:
-gSEMISP == 322        \* ; SP
-gXFONT == 323         \* ; x_font SP
-gXFSIZE == 324        \* ; x_fsize SP
-IsFragment(c) == c >= 300 /\ c < 1000
+gCONTENTTYPE == 1800000   \* Content-Type
+gTEXTHTML == 1800001      \* text/html            (text sink)
+gTEXTHTMLCS == 1800002    \* text/html; charset=  (binary sink; the codec name follows)
+gFONTFAMILY == 1800003    \* font-family:SP
+gFONTSIZE == 1800004      \* ; font-size:
+gPX == 1800005            \* px
+gPAGE == 1800006          \* Page SP              (anchor text)
+gPAGES == 1800007         \* Page: SP             (footer)
+gCOMMA == 1800008         \* , SP
+gHASHMARK == 1800009      \* #   (href="#n")
+gOCRPAGE == 1800010  gOCRBLOCK == 1800011  gOCRLINE == 1800012  gOCRXWORD == 1800013     \* class values
+gHOCRHTMLATTRS == 1800014 \* xmlns='..' xml:lang='en' lang='en' [charset='..']   (the whole attribute list, fixed)
+gHOCRMETA1 == 1800015  gHOCRMETA2 == 1800016  gHOCRMETA3 == 1800017                  \* the three fixed meta elements' attribute lists
+gHOCRCOMMENT1 == 1800018  gHOCRCOMMENT2 == 1800019                               \* the two fixed comments of write_footer
+gFONTQ == 1800020         \* font:"        (inside style='...')
+gQFONTSIZE == 1800021     \* "; font-size:
+gSEMISP == 1800022        \* ; SP
+gXFONT == 1800023         \* ; x_font SP
+gXFSIZE == 1800024        \* ; x_fsize SP
+IsFragment(c) == c >= 1800000 /\ c < 1900000
 IsComment(c) == c \in {gHOCRCOMMENT1, gHOCRCOMMENT2}
 
 \* opaque renderings: field f of node i (positions, sizes, whole style values)
